@@ -67,6 +67,27 @@ CLAIM = {
             'sampling grid (memory <= cp): the reported taps must sit on the sorted distinct samples with the merged '
             'powers (first-principles check in onetap / onetap_history / the channel correspondence), an exception on '
             'such a profile is a failure (channel-raises:<order>-profile). '
+            'Second robustness round: R8 argument forms (positional / keyword / mixed / default omitted / None / explicit '
+            'default; constructor vs set_parameters vs later replacement; keyword calls of modulate, demodulate, '
+            'equalize_data, get_freq_response; TdlChannel through tap arrays, a profile object, a pre-discretised '
+            'profile, positionally, with Ts defaulted) - THEOREM (params_default_used, params_constructor_eq_setter) + '
+            'correspondence + oracle `forms`; R9 index/count arguments (np.intp, int64, int32, uint16, 0-d arrays, bool cp, '
+            'distinct python ints above 256 at sizes 258 / 300 / 512 - identity vs equality) - correspondence + oracle '
+            '`indexarg` (the model works on mathematical integers); R10 heterogeneous collections: the API has no '
+            'list-of-arrays argument, the only case is integer-dtype tap arrays next to float ones - correspondence + '
+            'oracle; R11 non-mutating API (index queries, private calc helpers, repr, every property of impulse '
+            'response / profile / channel, get_freq_response with the caller overwriting the result, scaled copies, '
+            'the Agg plot helper, the processing methods) between the mutators of histories - THEOREM (pair_queries_pure, '
+            'pair_step_state; the model got the query operations usedIndexes / zeropadOf, driver ops idx / zp) + '
+            'correspondence + oracle `nomutate`; R12 container order: there is no dict / set container in this API, '
+            'the listing order of the paths of a profile is the only order that is not part of the logical value - '
+            'correspondence + oracle `order`; R13 derived objects (an impulse response taken from the channel still '
+            'equalises its block after later transmissions, scaled copies, returned arrays, discretised child '
+            'profiles) - correspondence + oracle `derived` (values are immutable in the model); R14 counts of 257 / 258 / '
+            '300 taps, OFDM symbols and fft sizes, 2^16+1 input symbols (fft 65537 in thorough) - oracles for all, '
+            'correspondence for taps, symbols, input length and the index layer (the numeric model DFT is cubic on '
+            'lists and is not run above fft 64). A library exception escaping an oracle is reported as a failing '
+            'input (call library-exception), never as exit 2. '
             'Python lists are not accepted by the API (ndarray only). Each class has its own required branches '
             '(R*:corr, R*:oracle*) and failure classes computed from the input (R1:param-<type>, R1:array-<dtype>:*, '
             'R2:<layout>:*, R3:input-mutated:<call>:<what>, R4:*, ...,notch<=1e-3 / ,input-scale<1e-6 qualifiers).',
@@ -1101,14 +1122,15 @@ def o_nomutate(case):
         ir = ch.get_last_impulse_response()
         taps0 = np.array(ir.tap_values_sparse, copy=True)
         H0 = np.array(ir.get_freq_response(cur[0]), copy=True)
-        attrs0 = dict(vars(obj))
+        attrs0 = (obj.fft_size, obj.cp_size, obj.num_used_subcarriers)      # the configuration (private caches may come and go)
         for q in st['queries']:
             try:
                 _do_query(q, obj, eqz, ch, ir, x, len(st['x']))
             except Exception as e:
                 return 'R11:%s:raises' % q, 'step %d: %s: %s' % (k, type(e).__name__, str(e)[:120])
-            if dict(vars(obj)) != attrs0 or eqz._ofdm_obj is not obj:
-                return 'R11:%s:attributes-changed' % q, 'step %d: %r -> %r' % (k, attrs0, dict(vars(obj)))
+            if (obj.fft_size, obj.cp_size, obj.num_used_subcarriers) != attrs0 or eqz._ofdm_obj is not obj:
+                return 'R11:%s:attributes-changed' % q, 'step %d: %r -> %r' % (
+                    k, attrs0, (obj.fft_size, obj.cp_size, obj.num_used_subcarriers))
             if not _eq_arr(ir.tap_values_sparse, taps0) or not _eq_arr(ir.get_freq_response(cur[0]), H0) \
                     or ch.get_last_impulse_response() is not ir:
                 return 'R11:%s:impulse-response-changed' % q, 'step %d' % k
@@ -1207,7 +1229,7 @@ def run_oracle(ctx, call, case, key=None, nontrivial=True):
     try:
         r = ORACLES[call](case)
     except Exception as e:
-        r = ('exception:' + type(e).__name__, repr(e)[:300])
+        r = ('exception:' + type(e).__name__ + (count_class(case) if isinstance(case, dict) else ''), repr(e)[:300])
     if r is not None:
         ctx.fail(call, r[0], case, r[1])
         ctx.branch('oracle-fail:' + call)
